@@ -246,6 +246,9 @@ def configs(ck):
             if len(c["targets"]) >= 2 and rng.integers(2):
                 c["targets"][1][1] = c["targets"][0][1]
             c["degree"] = 1
+            if qcd == 1 and rng.integers(3) == 0:
+                # LO evolution with an explicitly requested NLO matching: the matchings are real operators
+                c["matching_order"] = [1, 0]
             if rng.integers(3) == 0:
                 # a target exactly on a matching scale (lower / upper nf) next to targets crossing it: the same
                 # stretch is needed as a final and as an intermediate segment (two distinct parts)
